@@ -201,7 +201,7 @@ func check(t ev.TB, c Case, labels ...string) {
 	if f != nil && !f.inconclusive {
 		// confirm by re-execution: a verdict must not hinge on one unlucky schedule
 		again := 0
-		for i := 0; i < 3; i++ {
+		for i := 0; i < 2 && again == 0; i++ {
 			if f2, _ := run(c); f2 != nil && !f2.inconclusive {
 				again++
 			}
